@@ -114,28 +114,30 @@ Proof.
   do 6 (destruct i as [|i]; [do 6 (destruct j as [|j]; [entry12|]); exfalso; lia|]). exfalso; lia.
 Qed.
 
-Lemma tie_pose_big1 (x1 x2 : nat -> nat -> R) i j : (i < 6)%nat -> (j < 6)%nat ->
-  src_pose3d_mul_big1 ROps x1 x2 i j = pose_cov ROps x1 x2 i j.
-Proof.
-  intros Hi Hj.
-  do 6 (destruct i as [|i]; [do 6 (destruct j as [|j];
-    [lazy beta zeta iota delta [src_pose3d_mul_big1 pose_cov gmul gtrans nsum]; dict; ring|]); exfalso; lia|]). exfalso; lia.
-Qed.
-
 Lemma pose_cov_ext (j1 j2 c : nat -> nat -> R) : (forall a b, (a < 6)%nat -> (b < 6)%nat -> j1 a b = j2 a b) ->
   forall a b, (a < 6)%nat -> (b < 6)%nat -> pose_cov ROps j1 c a b = pose_cov ROps j2 c a b.
 Proof.
   intros H a b Ha Hb. unfold pose_cov, gmul, gtrans. cbn [nsum]. rewrite !H by lia. reflexivity.
 Qed.
 
-Lemma tie_pose_covariance_of_jacobian l t c ori pos :
-  src_pose3d_mul_covariance ROps l t c ori pos = src_pose3d_mul_big1 ROps (src_pose3d_mul_jacobian ROps l t c ori pos) c.
-Proof. reflexivity. Qed.
+(* the returned covariance is J*C*J^T for the generated J.  The 6x6 expression(s) are outlined by the translator as
+   src_pose3d_mul_big<k>; the proof abstracts the (large) generated J and the covariance argument, computes whatever chain of
+   outlined definitions the source uses (J * C * J^T in one statement, or through a 6x6 local, in either association) and
+   closes each of the 36 entries by ring. *)
+Lemma tie_pose_covariance_of_jacobian l t c ori pos i j : (i < 6)%nat -> (j < 6)%nat ->
+  src_pose3d_mul_covariance ROps l t c ori pos i j = pose_cov ROps (src_pose3d_mul_jacobian ROps l t c ori pos) c i j.
+Proof.
+  intros Hi Hj. unfold src_pose3d_mul_covariance, src_pose3d_mul_jacobian, src_pose3d_mul.
+  lazy beta zeta iota delta [fst snd].
+  match goal with |- _ = pose_cov ROps ?J c i j => generalize J end. intros X. clear l t ori pos.
+  do 6 (destruct i as [|i]; [do 6 (destruct j as [|j];
+    [cbv - [Rplus Rmult Rminus Ropp Rinv Rdiv IZR]; ring|]); exfalso; lia|]). exfalso; lia.
+Qed.
 
 Lemma tie_pose_covariance l t c ori pos i j : (i < 6)%nat -> (j < 6)%nat ->
   src_pose3d_mul_covariance ROps l t c ori pos i j = pose_cov ROps (pose_J ROps l ori) c i j.
 Proof.
-  intros Hi Hj. rewrite tie_pose_covariance_of_jacobian, tie_pose_big1 by assumption.
+  intros Hi Hj. rewrite tie_pose_covariance_of_jacobian by assumption.
   apply pose_cov_ext; [|assumption|assumption]. intros a b Ha Hb. apply tie_pose_jacobian; assumption.
 Qed.
 
@@ -183,5 +185,5 @@ Proof.
   split; [exact tie_pose_signature|]. split; [intros i j; apply tie_pose_jacobian|].
   split; [apply tie_pose_position|]. split; [apply tie_pose_euler_arg|]. split; [apply tie_pose_orientation|].
   split; [intros i j; apply tie_pose_covariance|].
-  intros i j Hi Hj. rewrite tie_pose_covariance_of_jacobian. apply tie_pose_big1; assumption.
+  intros i j. apply tie_pose_covariance_of_jacobian.
 Qed.
